@@ -77,6 +77,8 @@ type Call struct {
 	Name     string // property or variable name; for lit the literal text
 	HasArgs  bool
 	Args     []Node
+	// Multiline: the chain continues on the next line (`recv⏎  |.name`); it groups like a same-line chain
+	Multiline bool
 }
 type Index struct {
 	Recv Node
@@ -179,6 +181,9 @@ func printArgs(b *strings.Builder, args []Node, full bool) {
 func (n Call) print(b *strings.Builder, full bool) {
 	if n.Recv != nil {
 		child(b, n.Recv, LChain, full)
+	}
+	if n.Multiline && n.Recv != nil {
+		b.WriteString("\n  |")
 	}
 	b.WriteString(n.Chain)
 	if n.ChainArg != nil {
